@@ -14,7 +14,7 @@
    changes, device restart) from the empty world. *)
 From Coq Require Import List NArith Bool Lia.
 From OC Require Import Model.Proto3 Spec.Tla3 Proofs.Proto3Proofs Proofs.Proto3Witness
-  Proofs.Proto3OrderBase Proofs.Proto3OrderStep Proofs.Proto3OrderThm Proofs.Proto3BlocksBase Proofs.Proto3BlocksStep.
+  Proofs.Proto3OrderBase Proofs.Proto3OrderStep Proofs.Proto3OrderThm Proofs.Proto3Ordinals Proofs.Proto3BlocksBase Proofs.Proto3BlocksStep.
 Import ListNotations.
 Open Scope N_scope.
 
@@ -68,6 +68,22 @@ Theorem C20_ordinals_follow_log_order : forall w, reach w ->
   t_cord t < t_cord u.
 Proof. exact ordinals_follow_log_order_reach. Qed.
 Print Assumptions C20_ordinals_follow_log_order.
+
+(* ... and the ordinals stay inside the Committed cursor of the configuration: a committed change carries an ordinal between 1
+   and Committed.Ordinal; a committed rollback carries exactly Committed.Ordinal, above the ordinal of every committed change
+   (a rollback record never names an ordinal the configuration has not reached: the applies are sequenced by these numbers).
+   The monitor c20_ordinal_outside_cursor evaluates both on the records of the implementation after every step. *)
+Theorem C20_change_ordinal_within_cursor : forall w, reach w ->
+  forall j t, get_tx w j = Some t -> t_cc t = Complete -> 1 <= t_cord t <= k_ordinal (cmc w).
+Proof. exact change_ordinal_within_cursor_reach. Qed.
+Print Assumptions C20_change_ordinal_within_cursor.
+
+Theorem C20_rollback_ordinal_is_cursor : forall w, reach w ->
+  forall j t, get_tx w j = Some t -> t_rc t = Some Complete ->
+  t_rord t = k_ordinal (cmc w) /\
+  forall k u, get_tx w k = Some u -> t_cc u = Complete -> t_cord u < t_rord t.
+Proof. exact rollback_ordinal_is_cursor_reach. Qed.
+Print Assumptions C20_rollback_ordinal_is_cursor.
 
 (* ... rollback commits / applies complete in reverse order of the changes they undo: a completed rollback of stage p is an
    IsOrderedRollback of Config.tla at its position - spelled out: its change was completed before it, and every completed
